@@ -1,5 +1,7 @@
 import LinfaSpec.Proofs.NN
 import LinfaSpec.Proofs.NNMetrics
+import LinfaSpec.Proofs.NNBridge
+import LinfaSpec.Drv.C07
 import Mathlib.Analysis.SpecialFunctions.Log.Basic
 import Mathlib.Algebra.Order.Field.Rat
 import Mathlib.Algebra.Order.Group.Abs
@@ -105,16 +107,16 @@ theorem range_iff_dist {m : Metric P α} (h : Lawful m) (q x : P) {r : α} (hr :
 a subtree lies within `radius` of `center`. -/
 theorem ball_inv {m : Metric P α} (h : Lawful m) (mean : List P → P)
     (split : List (Pt P) → Option (List (Pt P) × P × List (Pt P))) (hs : SplitPerm split)
-    (leafSize fuel : Nat) (pts : List (Pt P)) :
+    (leafSize fuel : Nat) (pts : List (Pt P)) (hnd : (pts.map (·.2)).Nodup) :
     BallInv m (build m mean split leafSize fuel pts) :=
-  build_inv h hs leafSize fuel pts
+  build_inv h hs leafSize fuel pts hnd
 
 /-- the tree stores exactly the batch -/
 theorem build_stores_batch {m : Metric P α} (mean : List P → P)
     (split : List (Pt P) → Option (List (Pt P) × P × List (Pt P))) (hs : SplitPerm split)
-    (leafSize fuel : Nat) (pts : List (Pt P)) :
+    (leafSize fuel : Nat) (pts : List (Pt P)) (hnd : (pts.map (·.2)).Nodup) :
     (build m mean split leafSize fuel pts).points.Perm pts :=
-  build_perm hs leafSize fuel pts
+  build_perm hs leafSize fuel pts hnd
 
 /-- **bound_sound**: the pruning bound never exceeds the reduced distance to a point of the ball. -/
 theorem bound_sound {m : Metric P α} (h : Lawful m) (q : P) (node : Ball P α) (hn : BallInv m node)
@@ -184,9 +186,9 @@ theorem search_knn_correct {m : Metric P α} (h : Lawful m) (mean : List P → P
   · rw [if_neg h0]
     have hk : 0 < k := by omega
     have ht : BallInv m (ballIndex m mean split leafSize ncols rows).tree :=
-      build_inv h (mean := mean) hs leafSize rows.length (enumerate rows)
+      build_inv h (mean := mean) hs leafSize rows.length (enumerate rows) (enumerate_nodup rows)
     have hp : (ballIndex m mean split leafSize ncols rows).tree.points.Perm (enumerate rows) :=
-      build_perm (m := m) (mean := mean) hs leafSize rows.length (enumerate rows)
+      build_perm (m := m) (mean := mean) hs leafSize rows.length (enumerate rows) (enumerate_nodup rows)
     have := isKnn_perm (search_isKnn h q hk none _ ht) (Elig_perm m q none hp)
     rw [elig_none] at this
     exact kNearest_of_isKnn m q _ _ k this
@@ -207,9 +209,9 @@ theorem search_range_correct {m : Metric P α} (h : Lawful m) (mean : List P →
   · rw [if_neg (by omega)]
     have hk : 0 < rows.length := by omega
     have ht : BallInv m (ballIndex m mean split leafSize ncols rows).tree :=
-      build_inv h (mean := mean) hs leafSize rows.length (enumerate rows)
+      build_inv h (mean := mean) hs leafSize rows.length (enumerate rows) (enumerate_nodup rows)
     have hp : (ballIndex m mean split leafSize ncols rows).tree.points.Perm (enumerate rows) :=
-      build_perm (m := m) (mean := mean) hs leafSize rows.length (enumerate rows)
+      build_perm (m := m) (mean := mean) hs leafSize rows.length (enumerate rows) (enumerate_nodup rows)
     obtain ⟨rest, hperm, hlen, _, _⟩ :=
       isKnn_perm (search_isKnn h q hk (some (m.toR r)) _ ht) (Elig_perm m q (some (m.toR r)) hp)
     -- at most n eligible points, so nothing is left out
@@ -239,6 +241,38 @@ theorem indices_agree_knn {m : Metric P α} (h : Lawful m) (mean : List P → P)
   refine ⟨ob, hb, by simp [linearKnnQ], ?_⟩
   exact kNearest_dists_unique m q _ _ _ k hkb (linear_knn_correct m q k _)
 
+/-- **the k-d tree's `within_range` glue**: `kdtree::within` (contract: `rdist ≤ radius`) followed by
+linfa's own filter `dist < range` is the strict filter of the ascending scan — the repaired border
+handling of `KdTreeIndex::within_range` is part of the model the driver runs (`kdRangeQ`). -/
+theorem kd_within_then_filter (m : Metric P α) (q : P) (t : α) (pts : List (Pt P)) :
+    (kdWithin m q t pts).filter (fun e => e.1 < t) =
+      (linearKnnTagged m q pts.length pts).filter (fun e => e.1 < t) := by
+  unfold kdWithin
+  rw [List.filter_filter]
+  apply List.filter_congr
+  intro e _
+  by_cases h : e.1 < t <;> simp [h, le_of_lt]
+
+/-- …and the filter is needed: `within` alone keeps every stored point lying exactly on the radius
+(the defect repaired in 40eef7f), the filtered answer contains none of them. -/
+theorem kd_within_keeps_border (m : Metric P α) (q : P) (r : α) (pts : List (Pt P)) (p : Pt P)
+    (hp : p ∈ pts) (hb : m.rdist q p.1 = m.toR r) :
+    (m.rdist q p.1, p) ∈ kdWithin m q (m.toR r) pts ∧
+      (m.rdist q p.1, p) ∉ (kdWithin m q (m.toR r) pts).filter (fun e => e.1 < m.toR r) := by
+  obtain ⟨hperm, _⟩ := foldl_insert_spec (tag m q) pts [] (by simp [Asc])
+  have hall : linearKnnTagged m q pts.length pts =
+      pts.foldl (fun heap p => insertAsc (tag m q p) heap) [] := by
+    unfold linearKnnTagged
+    apply List.take_of_length_le
+    rw [hperm.length_eq]; simp
+  constructor
+  · unfold kdWithin
+    rw [hall, List.mem_filter]
+    refine ⟨hperm.mem_iff.mpr ?_, by simp [hb]⟩
+    simp only [List.nil_append, List.mem_map]
+    exact ⟨p, hp, rfl⟩
+  · simp [hb]
+
 /-- **indices_agree** (range, border included): all kinds keep exactly the points with
 `rdist < dist_to_rdist r`; a point on the radius is excluded by each of them. -/
 theorem indices_agree_range {m : Metric P α} (h : Lawful m) (mean : List P → P)
@@ -265,7 +299,7 @@ theorem indices_agree_range {m : Metric P α} (h : Lawful m) (mean : List P → 
     simp only [Elig, ltR] at this
     rw [this]
     simp [linearRange]
-  refine ⟨ob, _, hb, by simp [kdRangeQ], hpb, hkd, ?_⟩
+  refine ⟨ob, _, hb, by simp [kdRangeQ, kd_within_then_filter], hpb, hkd, ?_⟩
   intro p _ heq
   have hnot : p ∉ linearRange m q r (enumerate rows) := by
     simp [linearRange, heq]
@@ -293,7 +327,7 @@ def splitQ : List (Pt ℚ) → Option (List (Pt ℚ) × ℚ × List (Pt ℚ))
   | p :: ps => some ([p], p.1, ps)
 
 theorem splitQ_perm : SplitPerm splitQ := by
-  intro pts a c b h
+  intro pts a c b _ h
   cases pts with
   | nil => simp [splitQ] at h
   | cons p ps =>
@@ -315,7 +349,7 @@ example : ∃ out, ballRangeQ mQ (ballIndex mQ meanQ splitQ 2 1 [0, 3, 1, 3, 7])
     out.Perm (linearRange mQ 2 1 (enumerate [0, 3, 1, 3, 7])) :=
   search_range_correct mQ_lawful meanQ splitQ splitQ_perm 2 1 _ 2 1
 example : BallInv mQ (build mQ meanQ splitQ 1 5 (enumerate [0, 3, 1, 3, 7])) :=
-  ball_inv mQ_lawful meanQ splitQ splitQ_perm 1 5 _
+  ball_inv mQ_lawful meanQ splitQ splitQ_perm 1 5 _ (enumerate_nodup _)
 example : KNearest mQ 2 (enumerate [0, 3, 1, 3, 7]) (linearKnn mQ 2 9 (enumerate [0, 3, 1, 3, 7])) 9 :=
   linear_knn_correct mQ 2 9 _
 example : buildCheck 3 16 = .ok () ∧ buildCheck 0 16 = .error .zeroDimension ∧
@@ -608,7 +642,7 @@ def splitFirst {P : Type} : List (Pt P) → Option (List (Pt P) × P × List (Pt
   | p :: ps => some ([p], p.1, ps)
 
 theorem splitFirst_perm {P : Type} : SplitPerm (splitFirst (P := P)) := by
-  intro pts a c b h
+  intro pts a c b _ h
   cases pts with
   | nil => simp [splitFirst] at h
   | cons p ps =>
@@ -747,5 +781,365 @@ example : lp (3 : ℝ) [3, 4] [0, 0] = lp (3 : ℝ) [0, 0] [3, 4] ∧ ((0 : ℝ)
   lp_symm_self 3 [3, 4] [0, 0]
 
 end lp
+
+/-! ### the functions the driver runs: the replayed split, the leaf mean, one request -/
+section driver
+open LinfaSpec.Drv.C07
+
+theorem lookAll_spec {P : Type} (pts : List (Pt P)) : ∀ (is : List Nat) (out : List (Pt P)),
+    lookAll pts is = some out → out.map (·.2) = is ∧ ∀ p ∈ out, p ∈ pts
+  | [], out, h => by
+    simp only [lookAll, Option.some.injEq] at h
+    subst h
+    simp
+  | i :: is, out, h => by
+    simp only [lookAll] at h
+    split at h
+    · rename_i p ps hp hps
+      simp only [Option.some.injEq] at h
+      subst h
+      obtain ⟨h1, h2⟩ := lookAll_spec pts is ps hps
+      have hm : p ∈ pts := List.mem_of_find?_eq_some hp
+      have hi : p.2 = i := by
+        have := List.find?_some hp
+        simpa using this
+      refine ⟨by simp [h1, hi], ?_⟩
+      intro x hx
+      rcases List.mem_cons.mp hx with rfl | hx
+      · exact hm
+      · exact h2 x hx
+    · simp at h
+
+/-- a list of stored points whose positions are (as a multiset) the positions of `pts`, all taken
+from `pts`, is a permutation of `pts` when positions are distinct -/
+theorem perm_of_positions {P : Type} {ab pts : List (Pt P)} (hnd : (pts.map (·.2)).Nodup)
+    (hmap : (ab.map (·.2)).Perm (pts.map (·.2))) (hsub : ∀ x ∈ ab, x ∈ pts) : ab.Perm pts := by
+  have hnd_ab : (ab.map (·.2)).Nodup := (hmap.nodup_iff).mpr hnd
+  have h1 : ab.Nodup := List.Nodup.of_map _ hnd_ab
+  have h2 : pts.Nodup := List.Nodup.of_map _ hnd
+  apply (List.perm_ext_iff_of_nodup h1 h2).mpr
+  intro x
+  constructor
+  · exact hsub x
+  · intro hx
+    have hx2 : x.2 ∈ ab.map (·.2) := hmap.mem_iff.mpr (List.mem_map.mpr ⟨x, hx, rfl⟩)
+    obtain ⟨y, hy, hyx⟩ := List.mem_map.mp hx2
+    have hyx' : y = x := List.inj_on_of_nodup_map hnd (hsub y hy) hx hyx
+    exact hyx' ▸ hy
+
+/-- what `scriptSplit` returns, whatever the script says: two non-empty halves taken from `pts`
+whose positions together are the positions of `pts`, and the coordinates of one of its points -/
+theorem scriptSplit_shape {P : Type} (script : Script) (pts a b : List (Pt P)) (c : P)
+    (h : scriptSplit script pts = some (a, c, b)) :
+    ((a ++ b).map (·.2)).Perm (pts.map (·.2)) ∧ (∀ x ∈ a ++ b, x ∈ pts) ∧ a ≠ [] ∧ b ≠ [] ∧
+      ∃ p ∈ pts, p.1 = c := by
+  simp only [scriptSplit] at h
+  split at h
+  · simp at h
+  · rename_i c' l r hfind
+    split at h
+    · rename_i a' b' cp ha hb hc
+      split at h
+      · simp at h
+      · rename_i hne
+        simp only [Option.some.injEq, Prod.mk.injEq] at h
+        obtain ⟨rfl, rfl, rfl⟩ := h
+        have hkey := List.find?_some hfind
+        simp only [Bool.and_eq_true, beq_iff_eq] at hkey
+        obtain ⟨_, hsort⟩ := hkey
+        have hperm : (l ++ r).Perm (pts.map (·.2)) := by
+          have h1 := List.mergeSort_perm (l ++ r) (fun a b => decide (a ≤ b))
+          have h2 := List.mergeSort_perm (pts.map (·.2)) (fun a b => decide (a ≤ b))
+          unfold sortNat at hsort
+          rw [hsort] at h1
+          exact h1.symm.trans h2
+        obtain ⟨hla, hma⟩ := lookAll_spec pts l a' ha
+        obtain ⟨hlb, hmb⟩ := lookAll_spec pts r b' hb
+        simp only [Bool.or_eq_true, List.isEmpty_iff, not_or] at hne
+        refine ⟨by rw [List.map_append, hla, hlb]; exact hperm, ?_, hne.1, hne.2,
+          cp, List.mem_of_find?_eq_some hc, rfl⟩
+        intro x hx
+        rcases List.mem_append.mp hx with hx | hx
+        · exact hma x hx
+        · exact hmb x hx
+    · simp at h
+
+/-- **the split the driver replays satisfies the contract of `partition` for EVERY script** (also a
+corrupt one: it is then refused): the hypothesis `SplitPerm` of the search theorems is discharged for
+the very function `Drv/C07.run` passes to `knnRequest` / `rangeRequest` / `ballIndex`. -/
+theorem scriptSplit_splitPerm {P : Type} (script : Script) :
+    SplitPerm (scriptSplit (P := P) script) := by
+  intro pts a c b hnd h
+  obtain ⟨hmap, hsub, _⟩ := scriptSplit_shape script pts a b c h
+  exact perm_of_positions hnd hmap hsub
+
+variable {α : Type} [Field α] [LinearOrder α] [IsStrictOrderedRing α]
+
+theorem foldl_zipWith_length (ps : List (List α)) (c : List α) (d : Nat) (hc : c.length = d)
+    (h : ∀ p ∈ ps, p.length = d) :
+    (ps.foldl (fun c x => List.zipWith (· + ·) c x) c).length = d := by
+  induction ps generalizing c with
+  | nil => simpa using hc
+  | cons p ps ih =>
+    simp only [List.foldl_cons]
+    apply ih
+    · simp [hc, h p (by simp)]
+    · intro x hx
+      exact h x (by simp [hx])
+
+/-- **the leaf centre stays in the dimension of its points**: `vecMean` (the `c += p; c / len` loop
+the driver runs) of a non-empty list of `d`-dimensional rows is `d`-dimensional — the mean used in
+the subtype instantiation of the metric theorems is the driver's `vecMean`. -/
+theorem vecMean_length (ps : List (List α)) (d : Nat) (hne : ps ≠ []) (h : ∀ p ∈ ps, p.length = d) :
+    (vecMean ps).length = d := by
+  cases ps with
+  | nil => exact absurd rfl hne
+  | cons p ps =>
+    simp only [vecMean, List.length_map]
+    apply foldl_zipWith_length
+    · simp [h p (by simp)]
+    · exact h
+
+/-- `vecMean` as a function on the points of dimension `d` (the empty leaf of the empty tree, which
+the search never reaches, gets the origin) -/
+def meanDim (d : Nat) (ps : List {l : List α // l.length = d}) : {l : List α // l.length = d} :=
+  if h : ps = [] then ⟨List.replicate d 0, by simp⟩
+  else ⟨vecMean (ps.map (·.1)), vecMean_length _ d (fun h0 => h (List.map_eq_nil_iff.mp h0)) (by
+    intro p hp
+    obtain ⟨x, _, rfl⟩ := List.mem_map.mp hp
+    exact x.2)⟩
+
+theorem meanDim_val (d : Nat) (ps : List {l : List α // l.length = d}) (h : ps ≠ []) :
+    (meanDim d ps).1 = vecMean (ps.map (·.1)) := by
+  simp [meanDim, h]
+
+/-- **one request as the driver answers it** (`Drv/C07.run`: `knnRequest m vecMean (scriptSplit
+script) …`), for every script, every lawful metric and every mean: the k-nearest and the range
+clause of the statement, with no hypothesis on the split left. -/
+theorem driver_request_correct {P : Type} {m : Metric P α} (h : Lawful m) (mean : List P → P)
+    (script : Script) (kind : Kind) (form : Form) (ncols : Nat) (hl : 0 < form.leafSize)
+    (hc : 0 < ncols) (rows : List P) (q : P) (k : Nat) (r : α) :
+    (∃ out, knnRequest m mean (scriptSplit script) kind form ncols rows ncols q k = .ok out ∧
+      KNearest m q (enumerate rows) out k) ∧
+    (∃ out, rangeRequest m mean (scriptSplit script) kind form ncols rows ncols q r = .ok out ∧
+      out.Perm (linearRange m q r (enumerate rows)) ∧
+      (0 ≤ r → ∀ p, p ∈ out ↔ p ∈ enumerate rows ∧ m.dist q p.1 < r)) :=
+  ⟨common_knn_correct h mean _ (scriptSplit_splitPerm script) kind form ncols hl hc rows q k,
+    common_range_correct h mean _ (scriptSplit_splitPerm script) kind form ncols hl hc rows q r⟩
+
+-- non-vacuity: a script with one entry (centre = row 1, left = row 0, right = rows 1, 2) on three
+-- rational points; a corrupt script (an empty half) is refused, the theorem still applies
+example : scriptSplit [(1, [0], [1, 2])] (enumerate [(5 : ℚ), 7, 9]) =
+    some ([(5, 0)], 7, [(7, 1), (9, 2)]) := by
+  simp [scriptSplit, lookAll, sortNat, enumerate]
+example : scriptSplit [(1, [], [0, 1, 2])] (enumerate [(5 : ℚ), 7, 9]) = none := by
+  simp [scriptSplit, lookAll, sortNat, enumerate]
+example : ∃ out, knnRequest mQ meanQ (scriptSplit [(1, [0], [1, 2])]) .ball (.leaf 1) 1 [5, 7, 9] 1 6 2
+      = .ok out ∧ KNearest mQ 6 (enumerate [5, 7, 9]) out 2 :=
+  (driver_request_correct mQ_lawful meanQ [(1, [0], [1, 2])] .ball (.leaf 1) 1 (by decide) (by decide)
+    [5, 7, 9] 6 2 1).1
+example : (vecMean [[(1 : ℚ), 2], [3, 4]]).length = 2 :=
+  vecMean_length _ 2 (by simp) (by simp)
+example : (meanDim 2 [v2 1 2, v2 3 4]).1 = vecMean [[(1 : ℚ), 2], [3, 4]] :=
+  meanDim_val 2 _ (by simp)
+
+end driver
+
+open LinfaSpec.Drv.C07
+
+/-! ### termination of the build, the k-nearest clause in the distance -/
+section extra
+variable {P α : Type} [Field α] [LinearOrder α] [IsStrictOrderedRing α]
+
+/-- what `partition` guarantees besides the permutation: both halves are non-empty
+(`debug_assert!(!aps.is_empty() && !bps.is_empty())`), which is why the real recursion terminates -/
+def SplitNonempty (split : List (Pt P) → Option (List (Pt P) × P × List (Pt P))) : Prop :=
+  ∀ pts a c b, split pts = some (a, c, b) → a ≠ [] ∧ b ≠ []
+
+/-- **the fuel of `build` is not a modelling artefact**: with a split whose halves are non-empty (so
+each half is strictly smaller) any fuel ≥ the number of points gives the same tree — the fuel never
+is the reason for a leaf, the model's recursion is the recursion of `BallTreeInner::new`. -/
+theorem build_fuel_irrelevant {m : Metric P α} {mean : List P → P}
+    {split : List (Pt P) → Option (List (Pt P) × P × List (Pt P))} (hs : SplitPerm split)
+    (hn : SplitNonempty split) (leafSize : Nat) (hl : 0 < leafSize) :
+    ∀ (f1 f2 : Nat) (pts : List (Pt P)), (pts.map (·.2)).Nodup → pts.length ≤ f1 → pts.length ≤ f2 →
+      build m mean split leafSize f1 pts = build m mean split leafSize f2 pts := by
+  intro f1
+  induction f1 with
+  | zero =>
+    intro f2 pts _ h1 _
+    have h0 : pts.length ≤ leafSize := by omega
+    cases f2 with
+    | zero => rfl
+    | succ k => simp [build, h0]
+  | succ n ih =>
+    intro f2 pts hnd h1 h2
+    cases f2 with
+    | zero =>
+      have h0 : pts.length ≤ leafSize := by omega
+      simp [build, h0]
+    | succ k =>
+      by_cases h0 : pts.length ≤ leafSize
+      · simp [build, h0]
+      · cases hsp : split pts with
+        | none => simp [build, h0, hsp]
+        | some t =>
+          obtain ⟨a, c, b⟩ := t
+          have hp := hs _ _ _ _ hnd hsp
+          obtain ⟨hna, hnb⟩ := hn _ _ _ _ hsp
+          obtain ⟨hda, hdb⟩ := nodup_halves hp hnd
+          have hlen := hp.length_eq
+          simp only [List.length_append] at hlen
+          have ha : 0 < a.length := List.length_pos_iff.mpr hna
+          have hb : 0 < b.length := List.length_pos_iff.mpr hnb
+          simp only [build, h0, hsp, if_false]
+          rw [ih k a hda (by omega) (by omega), ih k b hdb (by omega) (by omega)]
+
+theorem scriptSplit_nonempty (script : Script) : SplitNonempty (scriptSplit (P := P) script) := by
+  intro pts a c b h
+  obtain ⟨_, _, ha, hb, _⟩ := scriptSplit_shape script pts a b c h
+  exact ⟨ha, hb⟩
+
+/-- the statement's k-nearest clause read in the DISTANCE (not the reduced distance): ascending, and
+every stored point left out is at least as far as every returned one -/
+theorem kNearest_dist_form {m : Metric P α} (hL : Lawful m) (q : P) (pts out : List (Pt P)) (k : Nat)
+    (h : KNearest m q pts out k) :
+    ∃ rest, (out ++ rest).Perm pts ∧ out.length = min k pts.length ∧
+      out.Pairwise (fun a b => m.dist q a.1 ≤ m.dist q b.1) ∧
+      ∀ y ∈ out, ∀ x ∈ rest, m.dist q y.1 ≤ m.dist q x.1 := by
+  have hasc := kNearest_dist_ascending hL q pts out k h
+  obtain ⟨rest, hp, hl, _, hm⟩ := h
+  refine ⟨rest, hp, hl, hasc, ?_⟩
+  intro y hy x hx
+  have := hm y hy x hx
+  rw [hL.rdist_eq, hL.rdist_eq] at this
+  exact hL.le_of_toR_le (hL.dist_nonneg _ _) this
+
+
+-- non-vacuity: the replayed split has non-empty halves, so fuel 3 (= n) and fuel 10 build the same tree
+example : build mQ meanQ (scriptSplit [(1, [0], [1, 2])]) 1 3 (enumerate [(5 : ℚ), 7, 9]) =
+    build mQ meanQ (scriptSplit [(1, [0], [1, 2])]) 1 10 (enumerate [(5 : ℚ), 7, 9]) :=
+  build_fuel_irrelevant (scriptSplit_splitPerm _) (scriptSplit_nonempty _) 1 (by decide) 3 10 _
+    (enumerate_nodup _) (by simp [enumerate]) (by simp [enumerate])
+example : ∃ rest, (linearKnn mQ 2 3 (enumerate [0, 3, 1, 3, 7]) ++ rest).Perm (enumerate [0, 3, 1, 3, 7]) ∧
+    (linearKnn mQ 2 3 (enumerate [0, 3, 1, 3, 7])).length = min 3 (enumerate [(0 : ℚ), 3, 1, 3, 7]).length ∧
+    (linearKnn mQ 2 3 (enumerate [0, 3, 1, 3, 7])).Pairwise (fun a b => mQ.dist 2 a.1 ≤ mQ.dist 2 b.1) ∧
+    ∀ y ∈ linearKnn mQ 2 3 (enumerate [0, 3, 1, 3, 7]), ∀ x ∈ rest, mQ.dist 2 y.1 ≤ mQ.dist 2 x.1 :=
+  kNearest_dist_form mQ_lawful 2 _ _ 3 (linear_knn_correct mQ 2 3 _)
+
+end extra
+
+/-! ### the metric theorems on raw rows: the term the driver evaluates -/
+section raw
+variable {α : Type} [Field α] [LinearOrder α] [IsStrictOrderedRing α]
+
+theorem scriptSplit_good {P : Type} (script : Script) : SplitGood (scriptSplit (P := P) script) := by
+  intro pts a c b h
+  obtain ⟨_, hsub, ha, hb, hc⟩ := scriptSplit_shape script pts a b c h
+  exact ⟨hsub, ha, hb, hc⟩
+
+/-- `KNearest` only reads the reduced distances from the query to stored points -/
+theorem kNearest_congr {P : Type} {S : P → Prop} {m m' : Metric P α} (hA : Agree S m m') (q : P)
+    (hq : S q) (pts : List (Pt P)) (hp : ∀ x ∈ pts, S x.1) (out : List (Pt P)) (k : Nat)
+    (h : KNearest m' q pts out k) : KNearest m q pts out k := by
+  obtain ⟨rest, hperm, hl, ha, hm⟩ := h
+  have hin : ∀ x ∈ out ++ rest, S x.1 := fun x hx => hp x (hperm.subset hx)
+  refine ⟨rest, hperm, hl, ?_, ?_⟩
+  · refine List.Pairwise.imp_of_mem ?_ ha
+    intro a b ha' hb' hab
+    rw [hA.rdist _ _ hq (hin a (List.mem_append_left _ ha')),
+      hA.rdist _ _ hq (hin b (List.mem_append_left _ hb'))]
+    exact hab
+  · intro y hy x hx
+    rw [hA.rdist _ _ hq (hin y (List.mem_append_left _ hy)),
+      hA.rdist _ _ hq (hin x (List.mem_append_right _ hx))]
+    exact hm y hy x hx
+
+/-- **the statement's clauses for the function the driver runs, on raw rows**: `m` any metric on
+coordinate lists that is `Lawful` on the points of dimension `d` (proved for `mL1`, `mLinf`, `mL2`,
+`mLp p` with `p ≥ 1`), the driver's `vecMean` and `scriptSplit script` (any script), every kind and
+build form, leaf size ≥ 1, `d ≥ 1`, every batch of `d`-dimensional rows and `d`-dimensional query:
+`knnRequest m vecMean (scriptSplit script) …` — literally the term `Drv/C07.run` evaluates — returns
+`KNearest`, and `rangeRequest …` the stored points strictly inside the radius.  `ncols` and the query
+dimension are the lengths of the rows and of `q`. -/
+theorem raw_request_correct (m : Metric (List α) α) (d : Nat) (hL : Lawful (onDim d m))
+    (script : Script) (kind : Kind) (form : Form) (hl : 0 < form.leafSize) (hd : 0 < d)
+    (rows : List (List α)) (hrows : ∀ x ∈ rows, x.length = d) (q : List α) (hq : q.length = d)
+    (k : Nat) (r : α) :
+    (∃ out, knnRequest m vecMean (scriptSplit script) kind form d rows q.length q k = .ok out ∧
+      KNearest m q (enumerate rows) out k) ∧
+    (∃ out, rangeRequest m vecMean (scriptSplit script) kind form d rows q.length q r = .ok out ∧
+      out.Perm (linearRange m q r (enumerate rows)) ∧
+      (0 ≤ r → ∀ p, p ∈ out ↔ p ∈ enumerate rows ∧ m.dist q p.1 < r)) := by
+  have hA := agree_fitM d m
+  have hen : ∀ x ∈ enumerate rows, x.1.length = d := by
+    intro x hx
+    unfold enumerate at hx
+    obtain ⟨p, i⟩ := x
+    exact hrows p (List.mem_of_getElem? (List.mem_zipIdx_iff_getElem?.mp hx))
+  obtain ⟨e1, e2⟩ := request_congr hA vecMean (fun ps hne hp => vecMean_length ps d hne hp)
+    (scriptSplit script) (scriptSplit_good script) kind form d rows hrows q.length q hq k r
+  obtain ⟨⟨o1, ho1, hk1⟩, ⟨o2, ho2, hp2, hi2⟩⟩ :=
+    driver_request_correct (fitM_lawful hL) vecMean script kind form d hl hd rows q k r
+  rw [hq]
+  rw [hq] at e1 e2
+  refine ⟨⟨o1, e1.trans ho1, kNearest_congr hA q hq _ hen o1 k hk1⟩, ⟨o2, e2.trans ho2, ?_, ?_⟩⟩
+  · rw [linearRange_congr hA q hq r (enumerate rows) hen]
+    exact hp2
+  · intro hr p
+    rw [hi2 hr p]
+    constructor
+    · rintro ⟨hm, hlt⟩
+      exact ⟨hm, by rw [hA.dist _ _ hq (hen p hm)]; exact hlt⟩
+    · rintro ⟨hm, hlt⟩
+      exact ⟨hm, by rw [← hA.dist _ _ hq (hen p hm)]; exact hlt⟩
+
+/-- `L1Dist` and `LInfDist` on raw rows, any ordered field -/
+theorem raw_l1_linf_correct (d : Nat) (script : Script) (kind : Kind) (form : Form)
+    (hl : 0 < form.leafSize) (hd : 0 < d) (rows : List (List α)) (hrows : ∀ x ∈ rows, x.length = d)
+    (q : List α) (hq : q.length = d) (k : Nat) :
+    (∃ out, knnRequest mL1 vecMean (scriptSplit script) kind form d rows q.length q k = .ok out ∧
+      KNearest mL1 q (enumerate rows) out k) ∧
+    (∃ out, knnRequest mLinf vecMean (scriptSplit script) kind form d rows q.length q k = .ok out ∧
+      KNearest mLinf q (enumerate rows) out k) :=
+  ⟨(raw_request_correct mL1 d (mL1_lawful d) script kind form hl hd rows hrows q hq k 0).1,
+    (raw_request_correct mLinf d (mLinf_lawful d) script kind form hl hd rows hrows q hq k 0).1⟩
+
+end raw
+
+section rawreal
+noncomputable local instance : Transc ℝ := ⟨Real.sqrt, Real.exp, Real.log⟩
+
+/-- `L2Dist` and `LpDist(p)`, `p ≥ 1`, on raw rows over ℝ: k nearest and range (strictly inside) -/
+theorem raw_l2_lp_correct {p : ℝ} (hp : 1 ≤ p) (d : Nat) (script : Script) (kind : Kind) (form : Form)
+    (hl : 0 < form.leafSize) (hd : 0 < d) (rows : List (List ℝ)) (hrows : ∀ x ∈ rows, x.length = d)
+    (q : List ℝ) (hq : q.length = d) (k : Nat) (r : ℝ) (hr : 0 ≤ r) :
+    (∃ out, knnRequest mL2 vecMean (scriptSplit script) kind form d rows q.length q k = .ok out ∧
+      KNearest mL2 q (enumerate rows) out k) ∧
+    (∃ out, rangeRequest mL2 vecMean (scriptSplit script) kind form d rows q.length q r = .ok out ∧
+      ∀ x, x ∈ out ↔ x ∈ enumerate rows ∧ Real.sqrt (sqL2 q x.1) < r) ∧
+    (∃ out, knnRequest (mLp p) vecMean (scriptSplit script) kind form d rows q.length q k = .ok out ∧
+      KNearest (mLp p) q (enumerate rows) out k) ∧
+    (∃ out, rangeRequest (mLp p) vecMean (scriptSplit script) kind form d rows q.length q r = .ok out ∧
+      ∀ x, x ∈ out ↔ x ∈ enumerate rows ∧ lp p q x.1 < r) := by
+  obtain ⟨h1, o2, ho2, _, hi2⟩ :=
+    raw_request_correct mL2 d (mL2_lawful d) script kind form hl hd rows hrows q hq k r
+  obtain ⟨h3, o4, ho4, _, hi4⟩ :=
+    raw_request_correct (mLp p) d (mLp_lawful hp d) script kind form hl hd rows hrows q hq k r
+  exact ⟨h1, ⟨o2, ho2, hi2 hr⟩, h3, ⟨o4, ho4, hi4 hr⟩⟩
+
+-- non-vacuity: the 3-4-5 batch as raw rows, script with one split, L2 radius 5 (the point (3,4) on it)
+example : ∃ out, rangeRequest mL2 vecMean (scriptSplit [(1, [0], [1, 2])]) .ball (.leaf 1) 2
+      [[3, 4], [1, 1], [6, 8]] ([0, 0] : List ℝ).length [0, 0] 5 = .ok out ∧
+    ∀ x, x ∈ out ↔ x ∈ enumerate [[3, 4], [1, 1], [6, 8]] ∧ Real.sqrt (sqL2 [0, 0] x.1) < 5 :=
+  (raw_l2_lp_correct (p := 1) le_rfl 2 [(1, [0], [1, 2])] .ball (.leaf 1) (by decide) (by decide)
+    [[3, 4], [1, 1], [6, 8]] (by simp) [0, 0] rfl 2 5 (by norm_num)).2.1
+example : ∃ out, knnRequest mL1 vecMean (scriptSplit []) .kd .default 2
+      ([[3, 4], [1, 1], [6, 8]] : List (List ℚ)) ([0, 0] : List ℚ).length [0, 0] 2 = .ok out ∧
+    KNearest mL1 ([0, 0] : List ℚ) (enumerate [[3, 4], [1, 1], [6, 8]]) out 2 :=
+  (raw_l1_linf_correct (α := ℚ) 2 [] .kd .default (by decide) (by decide)
+    [[3, 4], [1, 1], [6, 8]] (by simp) [0, 0] rfl 2).1
+
+end rawreal
 
 end LinfaSpec.Props.C07
